@@ -583,7 +583,8 @@ class InterpreterOMT(InterpreterSMT):
             return g
 
         elif cmd.name == smtcmd.GET_OBJECTIVES:
-            return self.optimization_goals[1]
+            # a copy: the list is emptied and refilled by the next check-sat
+            return list(self.optimization_goals[1])
 
         else:
             return self._smt_evaluate(cmd, optimizer)
